@@ -48,6 +48,13 @@ func genC16(seed uint64, tier string) *Plan {
 	}
 	p.Clients = append(p.Clients, q)
 	p.X["race"] = 1
+	if r.Chance(0.25) {
+		// the rate limiter's waiting path must run under the detector too
+		p.Cfg.Flusher = true
+		p.Cfg.Burst = uint64(32 + r.Intn(300))
+		p.Cfg.SyncMs = 1 + r.Intn(20)
+		p.X["rate"] = 1 + r.Intn(3000)
+	}
 	return p
 }
 
@@ -286,6 +293,9 @@ func runConc(p *Plan, tape *simrt.Tape, opt RunOpt) *RunOut {
 		if err := d.Open(); err != nil {
 			cs.fail("open-error", "OpenStore failed: %v", err)
 			return
+		}
+		if rate := p.x("rate", 0); rate > 0 {
+			d.St.VerifSetFlushRate(float64(rate))
 		}
 		var wg simsync.WaitGroup
 		for ci := range p.Clients {
